@@ -7,22 +7,22 @@ VERIF = os.path.dirname(os.path.dirname(os.path.abspath(__file__)))
 
 TB = ("Trusted base: Coq 8.16.1 kernel (full .vo build, no native_compute), no axioms (Print Assumptions audited on every run), "
       "extraction with ExtrOcamlBasic only, and the correspondence check (Rust harness enr_impl built against /repo's working tree, "
-      "OCaml driver of the extracted model, Python generators/diff) which is differential testing. Crypto cores (ECDSA equation, "
+      "OCaml driver of the extracted model, Python generators/diff) which is differential testing (plus an extraction cross-check by vm_compute inside Coq on every run). Crypto cores (ECDSA equation, "
       "Ed25519, SEC1 point decoding) are universally quantified in the theorems and answered by k256/libsecp256k1/dalek called directly at run time. ")
 
 # id -> (claimed?, level text, note on what is partial/assumed, design section)
 P = {
- "C01": ("Theorems for all byte strings and all crypto behaviours: an accepted input verifies under the key it carries over exactly the reported seq/pairs; signature framing (64 bytes, ranges, low-S) and high-S twin rejection are proved arithmetic facts. Tied to the code by the correspondence run (valid records signed by the libraries directly, bit flips, tampers, text form, 5 key types) plus a monitor that re-verifies every accepted record with the crypto library directly.",
+ "C01": ("Theorems for all byte strings and all crypto behaviours: an accepted input verifies under the key it carries over exactly the reported seq/pairs; signature framing (64 bytes, ranges, low-S) and high-S twin rejection are proved arithmetic facts; alteration_accepted_only_as_forgery: a second, different accepted input carries its own verifying (key, content, signature). Tied to the code by the correspondence run (valid records signed by the libraries directly, bit flips, tampers, text form, 5 key types) plus a monitor that re-verifies every accepted record with the crypto library directly.",
          "Unforgeability of ECDSA/Ed25519 is the named residual assumption: 'every alteration is rejected' is the contrapositive of decode_authentic, not a cryptographic theorem."),
  "C02": ("decode_iff_wellformed: the model decoder accepts item++rest iff item satisfies the declarative grammar WellFormed (no parsing in the spec); both directions proved for all byte strings and crypto behaviours; decode_total: every other input yields an error value. Correspondence: verdicts on valid records and re-signed structural mutants under 5 key types.",
          "65-byte SEC1 keys are inside the secp_pk oracle; inner bytes of list values are unconstrained, as the property says."),
- "C03": ("No-panic theorems: in the model every expect/unwrap/index of the Rust is a Panic outcome; decode, decode_vec, from_str, from_json, enr_to_public never panic for any input; every accessor and every update on a Valid record does not panic; with C05 (reachable -> Valid) this covers every record handed out. Correspondence: catch_unwind + timeouts over unstructured inputs, tampers, histories with every accessor after every step.",
+ "C03": ("No-panic theorems: in the model every expect/unwrap/index of the Rust is a Panic outcome; decode, decode_vec, from_str, from_json, enr_to_public never panic for any input; step_no_panic and build_no_panic hold for ALL records, arguments and signers; accessors on a Valid record are total; with C05 (reachable -> Valid) this covers every record handed out. Correspondence: catch_unwind + timeouts over unstructured inputs, tampers, histories with every accessor after every step.",
          "Partial by nature: panics inside dependencies on inputs the model does not send them, allocation failure, aborts and stack exhaustion are runtime behaviour a Gallina model cannot exhibit; those are sampled only."),
- "C04": ("decode_canonical (consumed bytes = re-encoding), decode_injective, decode_reports_parse, encode_decode for Valid records, b64/text/JSON round trips, all proved for all inputs; reachable records are Valid by C05. Correspondence: re-encoding vs consumed bytes, and bytes/text/JSON round trip of every record seen in histories.",
+ "C04": ("decode_canonical (consumed bytes = re-encoding), decode_injective, decode_reports_parse, valid_roundtrip (bytes, text with and without prefix, JSON) and reachable_roundtrip along every history, proved for all inputs. Correspondence: re-encoding vs consumed bytes, and bytes/text/JSON round trip of every record seen in histories.",
          "JSON escapes are serde_json's (model covers plain string literals)."),
  "C05": ("Valid is an invariant: decode_valid, build_valid, step_valid and history_valid (induction over arbitrary operation lists, any signer satisfying GoodSigner, any crypto behaviour), plus re-keying. Valid records re-decode (valid_redecodes). Correspondence: full observation after every step of random/directed histories, 5 key types incl. variable-length Toy signatures; model-independent monitor re-verifies with the crypto libraries directly.",
          "GoodSigner (the signer returns signatures its public key verifies) and KeyOk are hypotheses, checked at run time on every signature produced."),
- "C06": ("step_err_unchanged for every record, operation, signer (failing, lying, any length) and crypto behaviour; signer_fault. Correspondence: observation before/after every failing step, signing faults injected at each signing call.",
+ "C06": ("step_err_unchanged for every record, operation, signer (failing, lying, any length) and crypto behaviour; signer_fault; err_still_valid. Correspondence: observation before/after every failing step, signing faults injected at each signing call.",
          ""),
  "C07": ("step_seq (+1 / exact set), no_wrap, finish_at_max, seq_codec for all 64-bit values, seq range of decoded records. Correspondence: seq before/after each step from boundary starting values.",
          ""),
@@ -32,7 +32,7 @@ P = {
          ""),
  "C10": ("decode_nid, step_nid, build_nid, step_rekeys, nid_function_of_key: node id = keccak256 (uncompressed key) with keccak256 concrete in Gallina. Correspondence: node id vs independent derivation, after build/decode/every step.",
          "The uncompressed form of a SEC1 key comes from the secp_pk oracle (library called directly), checked against both libraries."),
- "C11": ("decode_k256_libsecp, decode_kt_ext, CombinedKey = secp when a valid secp entry exists else ed, isolation (decode_needs_own_key), combined_precedence. Correspondence: all inputs under all key types, pairwise comparison of back-ends.",
+ "C11": ("decode_k256_libsecp, decode_kt_ext, decode_comb_of_k256 / decode_comb_of_ed / decode_comb_split (CombinedKey accepts exactly what the secp256k1 types accept plus what the ed25519 type accepts when no valid secp256k1 entry is present, same record), isolation (decode_needs_own_key), combined_precedence. Correspondence: all inputs under all key types, pairwise comparison of back-ends.",
          "That k256 and libsecp256k1 implement the same curve equation is a fact about two foreign libraries: sampled, not proved."),
  "C12": ("to_text_def, b64_roundtrip, b64_canonical (unique text per byte string), from_str_strict, from_str_accepts, from_str_rejects_trailing. Correspondence: every edit class of the property on valid texts.",
          ""),
